@@ -146,6 +146,27 @@ class EvTables:
             pick("function_arguments", lambda f: len(sig(f)[0]) == 1 and sig(f)[1] == R("std::vec::Vec<%s>" % node_ty))
             pick("find_item_list", lambda f: len(sig(f)[0]) >= 4 and sig(f)[0][1:3] == [tok_ty, tok_ty])
             pick("get_enclosed_elements_with_impl_mult", lambda f: cat_ty and len(sig(f)[0]) == 4 and sig(f)[0][1] == cat_ty and sig(f)[0][2] == tok_ty)
+            pick("get_enclosed_elements_with_impl_mult", lambda f: len(sig(f)[0]) == 3 and sig(f)[0][1] == tok_ty and node_ty in sig(f)[0][2] and sig(f)[1] == R(node_ty))
+            # a bracket helper without a level parameter: the level is the constant it hands to generate_ast
+            fe = out.get("get_enclosed_elements_with_impl_mult")
+            if fe is not None and ga is not None and cat_ty and cat_ty not in sig(fe)[0]:
+                lv = []
+
+                def w_(e):
+                    if isinstance(e, dict):
+                        if e.get("k") == "call" and e.get("fn") and (e["fn"].get("inst") or e["fn"].get("def")) == ga.path and len(e.get("args", [])) == 2:
+                            a = e["args"][1]
+                            while isinstance(a, dict) and a.get("k") in ("scope", "use", "expr") and isinstance(a.get("e"), dict):
+                                a = a["e"]
+                            lv.append(a.get("variant") if isinstance(a, dict) and a.get("k") == "adt" and a.get("adt") == cat_ty else None)
+                        for v in e.values():
+                            w_(v)
+                    elif isinstance(e, list):
+                        for v in e:
+                            w_(v)
+                w_(T.fold(fe.thir["body"]))
+                if len(lv) == 1 and lv[0]:
+                    self._cache["encl_fixed_cat"] = (cat_ty.split("::")[-1], lv[0])
             self._cache["roles"] = out
             ren = {}
             for canon, f in out.items():
@@ -181,6 +202,19 @@ class EvTables:
         ren = dict(self._cache.get("rename") or {})
         ren.update(getattr(self.F, "cat_atom_rename", {}))
         cpath = getattr(self.F, "cat_path_rename", None)
+        fixed = self._cache.get("encl_fixed_cat")
+        if fixed:
+            fe = self._cache["roles"]["get_enclosed_elements_with_impl_mult"]
+            nm = "P." + fe.key.split("::")[-1]
+            catlast, fixed = fixed
+
+            def rf(x):
+                if isinstance(x, tuple):
+                    x = tuple(rf(y) for y in x)
+                    if len(x) == 5 and x[0] == "call" and x[1] == nm and x[2] == SELF:
+                        return x[:3] + (("ctor", "%s::%s" % (catlast, fixed)),) + x[3:]
+                return x
+            t = rf(t)
         if not ren and not cpath:
             return t
         if cpath:
@@ -209,10 +243,26 @@ class EvTables:
         for (vid, nm, ty) in T.param_ids(f):
             if vid is not None:
                 ctx.env[vid] = ("param", nm)
-        t = T.alpha(T.normalise(self.TR.term(body, ctx)))
+        t = self.TR.term(body, ctx)
+        t = self._fold_data_consts(t)
+        t = T.alpha(T.normalise(t))
         t = self.local(t)
         self._cache[key] = t
         return t
+
+    def _fold_data_consts(self, t):
+        """a crate-local `const` whose value is an array of character / number literals is that array (a named table)"""
+        if not isinstance(t, tuple):
+            return t
+        if len(t) == 3 and t[0] == "const" and isinstance(t[1], str) and t[2] is None:
+            nm = re.split(r"::|\.", t[1])[-1]
+            c = [g for g in self.F.fns if isinstance(g.kind, str) and g.kind.startswith("Const") and g.thir and g.key.split("::")[-1] == nm and (g.evaluator == self.ev or g.key.startswith("utils::"))]
+            if len(c) == 1:
+                v = self.TR.term(T.body_of(c[0]), T.Ctx())
+                if isinstance(v, tuple) and v and v[0] == "array" and all(isinstance(a, tuple) and a and a[0] in ("char", "lit", "str") for a in v[1:]):
+                    return v
+            return t
+        return tuple(self._fold_data_consts(x) for x in t)
 
     # ---- eval arms --------------------------------------------------------
     def eval_fn(self):
@@ -278,6 +328,7 @@ class EvTables:
                 if t2 == t:
                     break
                 t = t2
+            t = T.iflet_some_match(t)
             names = self.arm_ctor_names(a["pat"])
             if not names:
                 self.issue("T_eval", f.key, "arm pattern is not a plain Node constructor: %s" % T.show(p))
